@@ -81,7 +81,8 @@ def handleSpend (s : St) (ws : List String) : IO St := do
     if kvN ws "rec_amt" != kvN ws "act_amt" || kvS ws "pk" != "1" then
       s ← monitor s "index-amount" s!"ctx={ctxS} kind={kind} rec_idx={kvS ws "rec_idx"} rec_amt={kvS ws "rec_amt"} act_amt={kvS ws "act_amt"} pk={kvS ws "pk"}"
     if engine != "ok" then
-      let leaseTag := if s.ct.lease && kind == "toRemote" && kvS ws "wt" == "CommitmentToRemoteConfirmed"
+      let leaseTag := if s.ct.lease && s.thaw > 0 && ctxField ctxS "v" == "A"
+        && kind == "toRemote" && kvS ws "wt" == "CommitmentToRemoteConfirmed"
         && engine == "fail:ErrUnsatisfiedLockTime" && lock == 0
         && ((kvS ws "ws").splitOn "OP_CHECKLOCKTIMEVERIFY").length > 1
         then " lease_cltv_locktime0=1" else ""
@@ -146,6 +147,8 @@ def step (s : St) (line : String) : IO St := do
                        csv := #[(kvNat? rest "csvA").getD 5, (kvNat? rest "csvB").getD 4],
                        thaw := kvN rest "thaw", noamt := b "noamt",
                        cases := s.cases + 1 }
+    -- honest peers never reject each other's messages; if they do the history is cut short
+    let s ← if b "dead" then mismatch s "history aborted: a peer rejected an honest message" else pure s
     if s.samples < 4 && id != "tmpl" && id != "hint" then
       IO.println s!"SAMPLE {line}"
       return { s with samples := s.samples + 1 }
@@ -255,7 +258,8 @@ def step (s : St) (line : String) : IO St := do
     if kvN rest "recok" != 1 then
       s ← monitor s "index-amount" s!"ctx={ctxS} variant={kvS rest "variant"} kind={kind} idx={kvS rest "idx"} recorded output differs from the real one"
     if engine != "ok" then
-      let leaseTag := if s.ct.lease && kind == "toRemote" && kvS rest "wt" == "CommitmentToRemoteConfirmed"
+      let leaseTag := if s.ct.lease && s.thaw > 0 && ctxField ctxS "v" == "A"
+        && kind == "toRemote" && kvS rest "wt" == "CommitmentToRemoteConfirmed"
         && engine == "fail:ErrUnsatisfiedLockTime" && lock == 0 then " lease_cltv_locktime0=1" else ""
       s ← monitor s "justice-valid" s!"ctx={ctxS} variant={kvS rest "variant"} kind={kind} wt={kvS rest "wt"} seq={seq} lock={lock} engine={engine}{leaseTag}"
     -- (X) witness type table and transaction shape of the real breach arbitrator
